@@ -1,12 +1,13 @@
 #!/bin/bash
 # Self-test (a): on the unchanged /repo every property must be RT-OK for several seeds.
-#   selftest_clean.sh [TARGET_DIR] [BUDGET_S] [SEEDS...]       default: 60 s, seeds 1 2 3
+#   selftest_clean.sh [TARGET_DIR] [BUDGET_S] [SEEDS...]       default: 60 s, seeds 1 2 3; env PROPS="C01 C06" restricts the properties
 TD=${1:-/var/tmp/rt-target-I}; B=${2:-60}; shift; shift
 SEEDS=${*:-1 2 3}
 HERE=$(cd "$(dirname "$0")" && pwd)
-for p in C01 C02 C03 C04 C05 C06 C07 C08 C09 C10 C11 C12 C13 C14 C15 C16 C17 C18 C19 C20; do
+for p in ${PROPS:-C01 C02 C03 C04 C05 C06 C07 C08 C09 C10 C11 C12 C13 C14 C15 C16 C17 C18 C19 C20}; do
   for s in $SEEDS; do
-    r=$(python3 $HERE/run_rt.py $p --repo /repo --target-dir $TD --budget-s $B --seed $s --out $TD/clean-$p-$s.json --quiet 2>/dev/null | tail -1)
-    echo "$p seed=$s :: $(echo "$r" | cut -c1-260)"
+    o=$(python3 $HERE/run_rt.py $p --repo /repo --target-dir $TD --budget-s $B --seed $s --out $TD/clean-$p-$s.json --quiet 2>/dev/null)
+    echo "$o" | grep '^RT-FINDING' | cut -c1-160 | sed "s/^/$p seed=$s :: /"
+    echo "$p seed=$s :: $(echo "$o" | tail -1 | cut -c1-260)"
   done
 done
